@@ -1,13 +1,13 @@
 SPECIFICATION Spec
 CONSTANTS
   Dirs = {"A", "B"}
-  ChunkSizes <- BidirSizes
+  ChunkSizes = {}
   Shapes <- OneShape
-  AbsLens = {1, 300}
+  AbsLens = {1}
   RelLens = FALSE
-  MaxWrites = 3
+  MaxWrites = 1
   WriterFollowsOwnSCS = TRUE
-  HsOrder = "serial"
-  HsReadExact = TRUE
-INVARIANTS NoDesync Emit
+  HsOrder = "free"
+  HsReadExact = FALSE
+INVARIANTS HsExact
 CHECK_DEADLOCK FALSE
